@@ -127,7 +127,7 @@ pub fn c01_strategy() -> BoxedStrategy<Case> {
         burst: 1,
         burst_kinds: vec![0, 1, 4],
         burst_n: (3, 20),
-        abort: 0,
+        abort: 1,
         ..W::default()
     };
     arb_case(w, 1..=2, 0..=4, 6..40, 2)
@@ -154,6 +154,8 @@ pub fn c03_strategy() -> BoxedStrategy<Case> {
         burst: 2,
         burst_kinds: vec![0, 1],
         burst_n: (2, 8),
+        abort: 3,
+        stream_drop: 1,
         create_sub: 0,
         delete_sub: 0,
         create_topic: 0,
